@@ -1,18 +1,40 @@
 //! C04: civil -> instant resolution finds gaps/folds exactly; strategies as
 //! documented. E1 over all zones: every gap/fold window boundary of every
-//! transition (recorded and rule generated), to the second and nanosecond.
+//! transition (recorded and rule generated), to the second and nanosecond,
+//! both sides of every wall-clock year boundary in the rule-governed part
+//! (jiff evaluates rules per wall-clock year), the civil datetimes at the
+//! edges of the timestamp range, and DateTime::MIN/MAX.
 //! The classification is *defined* from R-tz by counting pre-images.
+//!
+//! Entry points, all at every probe (in the thorough POSIX product the three
+//! AmbiguousZoned strategies other than `compatible` and
+//! `AmbiguousTimestamp::disambiguate` run at lo-1ns, mid and hi-1ns of every
+//! window only; `AmbiguousZoned::disambiguate` runs at the mid-window probe of
+//! every transition and at whole-hour probes): `TimeZone::{to_ambiguous_timestamp,
+//! to_ambiguous_zoned, to_timestamp, to_zoned}`, `AmbiguousTimestamp` and
+//! `AmbiguousZoned` `::{offset, is_ambiguous, datetime, compatible, earlier,
+//! later, unambiguous, disambiguate(each Disambiguation)}`,
+//! `DateTime::to_zoned` (instant, offset and datetime of the result: it has
+//! its own construction path), `Date::to_zoned` whenever the probe is a
+//! midnight. Every `Zoned` produced from a non-gap civil time must display
+//! that civil time with the chosen offset (all four strategies, both fold
+//! instants). `DateTime::in_tz` / `Date::in_tz` (database route) run on a
+//! representative set of probes per installed zone (section `db-route`).
 
 use jiff::civil::DateTime;
-use jiff::tz::{AmbiguousOffset, TimeZone};
+use jiff::tz::{AmbiguousOffset, Disambiguation, TimeZone};
 use jiff::Timestamp;
 use rayon::prelude::*;
 use refmodel::tz as rtz;
 use serde_json::json;
+use std::collections::BTreeSet;
 use std::sync::atomic::{AtomicU64, Ordering};
 use vf::conv;
 use vf::zones::{self, Pair, ZoneSrc};
 use vf::{guard, panic_sig, Report};
+
+#[path = "c03/hb.rs"]
+mod hb;
 
 const NS: i128 = 1_000_000_000;
 
@@ -23,6 +45,18 @@ enum Class {
     Fold(i32, i32),
 }
 
+#[derive(Clone, Copy, PartialEq)]
+enum Years {
+    All,
+    /// one 400-year Gregorian cycle + range edges + years around 0 + pre-1970
+    Cycle,
+    /// quick POSIX product: 1995..2045 + range edges + years around 0 + pre-1970
+    Short,
+    /// quick, TZif zones whose footer string is swept over every year through
+    /// another zone of the same corpus: years to 2100, every 97th year, 9997..
+    Sparse,
+}
+
 struct Tot {
     probes: AtomicU64,
     gaps: AtomicU64,
@@ -31,6 +65,9 @@ struct Tot {
     excluded: AtomicU64,
     zones_without_both: AtomicU64,
 }
+
+/// (instant ns, offset s, displayed civil datetime)
+type Zv = Option<(i128, i32, DateTime)>;
 
 fn main() {
     let r = Report::from_args("C04");
@@ -47,24 +84,38 @@ fn main() {
     corpus.push(("sys", zones::sys(true)));
     corpus.push(("synth-slim", zones::synth("slim")));
     corpus.push(("synth-fat", zones::synth("fat")));
+    // all bundled zones (slim data: this is where in-memory fattening from the
+    // footer actually adds transitions)
+    corpus.push(("bundled", zones::bundled()));
     if r.thorough() {
-        corpus.push(("bundled", zones::bundled()));
         corpus.push(("tzdata-slim", zones::tzdata("slim")));
         corpus.push(("tzdata-fat", zones::tzdata("fat")));
-    } else {
-        // quick: all bundled zones too (slim data: this is where in-memory
-        // fattening from the footer actually adds transitions)
-        corpus.push(("bundled", zones::bundled()));
     }
+    corpus.push(("handbuilt", hb::handbuilt()));
     for (tag, zs) in &corpus {
         let sec = format!("tzif:{}", tag);
+        // Beyond the (fattened) table a TZif zone is governed by its footer
+        // string alone. Thorough sweeps every rule year of every zone; quick
+        // sweeps every rule year for the first zone carrying each distinct
+        // footer string and a sparse set of years for the others.
+        let mut seen: BTreeSet<Vec<u8>> = BTreeSet::new();
+        let plan: Vec<(&ZoneSrc, Years)> = zs
+            .iter()
+            .map(|z| {
+                let footer = rtz::parse_tzif(&z.bytes).ok().and_then(|x| x.footer).unwrap_or_default();
+                let first = seen.insert(footer);
+                (z, if r.thorough() || first { Years::All } else { Years::Sparse })
+            })
+            .collect();
+        r.count("tzif_zones_swept_over_every_rule_year", plan.iter().filter(|x| x.1 == Years::All).count() as u64);
+        r.count("tzif_zones_swept_over_sparse_rule_years", plan.iter().filter(|x| x.1 == Years::Sparse).count() as u64);
         r.section(&sec, || {
-            zs.par_iter().for_each(|z| {
+            plan.par_iter().for_each(|(z, years)| {
                 let Ok(pair) = zones::load_pair(z) else {
                     r.count("zones_not_loaded(see C03)", 1);
                     return;
                 };
-                check_zone(&r, &sec, &pair, true, &tot);
+                check_zone(&r, &sec, &pair, *years, &tot);
                 r.add_states(1);
             });
         });
@@ -72,15 +123,39 @@ fn main() {
     r.section("posix", || {
         let level = if r.quick() { 0 } else { 2 };
         let strs = zones::posix_alphabet(level);
+        let years = if r.quick() { Years::Short } else { Years::Cycle };
         strs.par_iter().for_each(|s| {
             let Ok(pair) = zones::load_posix_pair(s) else {
                 r.count("zones_not_loaded(see C03)", 1);
                 return;
             };
-            check_zone(&r, "posix", &pair, false, &tot);
+            check_zone(&r, "posix", &pair, years, &tot);
             r.add_states(1);
         });
     });
+    // every rule year -9999..=9999: each rule shape once in quick (18
+    // strings); in thorough the shapes x std offsets (53 strings) and every
+    // 16th string of the level-0 product alphabet
+    r.section("posix-every-year", || {
+        let mut strs = hb::posix_every_year_level(if r.quick() { 0 } else { 1 });
+        if r.thorough() {
+            strs.extend(zones::posix_alphabet(0).into_iter().step_by(16));
+        }
+        r.count("posix_strings_every_year", strs.len() as u64);
+        strs.par_iter().for_each(|s| {
+            let Ok(pair) = zones::load_posix_pair(s) else {
+                r.count("zones_not_loaded(see C03)", 1);
+                return;
+            };
+            check_zone(&r, "posix-every-year", &pair, Years::All, &tot);
+            r.add_states(1);
+        });
+    });
+    r.section("fixed", || fixed_offsets(&r));
+    r.section("db-route", || db_route(&r));
+    if r.thorough() {
+        r.section("zdump-civil", || zdump_civil_binding(&r));
+    }
 
     let g = |a: &AtomicU64| a.load(Ordering::Relaxed);
     r.count("civil_probes", g(&tot.probes));
@@ -91,6 +166,14 @@ fn main() {
     r.count("zones_with_offset_changes_but_not_both_gap_and_fold", g(&tot.zones_without_both));
     if r.only_section.is_none() {
         r.require(g(&tot.gaps) > 1000 && g(&tot.folds) > 1000, "gaps and folds observed");
+        r.require(r.get_count("probes_overlapping_windows") > 0, "civil times inside a transition window longer than an adjacent piece probed");
+        r.require(r.get_count("probes_midnight(Date::to_zoned)") > 1000, "Date::to_zoned exercised at midnight probes");
+        r.require(r.get_count("midnight_gap_or_fold(Date::to_zoned)") > 100, "Date::to_zoned exercised inside midnight gaps/folds");
+        r.require(r.get_count("probes_wall_year_boundary") > 0, "wall-clock year boundaries probed");
+        r.require(r.get_count("probes_negative_rule_years") > 0, "rule transitions in negative years probed");
+        r.require(r.get_count("results_out_of_timestamp_range") > 0, "civil datetimes beyond the timestamp range probed");
+        r.require(r.get_count("fold_later_instants_displayed") > 1000, "later fold instants checked for display");
+        r.require(r.get_count("db_route_zones") > 300, "DateTime::in_tz exercised for the installed zones");
     }
     r.finish();
 }
@@ -123,57 +206,79 @@ fn jiff_class(a: AmbiguousOffset) -> Class {
     }
 }
 
-/// F7 window test on the civil side: is `civil_sec` within reach of a rule
-/// transition whose exact UTC instant, or one of whose two wall-clock readings,
-/// lies outside the rule's own year? (jiff evaluates POSIX rules per calendar
-/// year and clamps each transition into its year, in UTC and on the wall clock.)
-fn near_crossing(z: &rtz::Zone, civil_sec: i64) -> bool {
-    let i = z.piece_index_at(civil_sec);
-    let lo = i.saturating_sub(4).max(1);
-    let hi = (i + 4).min(z.pieces.len() - 1);
-    for j in lo..=hi {
-        let p = &z.pieces[j];
-        if p.recorded {
-            continue;
-        }
-        let o1 = z.infos[z.pieces[j - 1].info as usize].utoff as i64;
-        let o2 = z.infos[p.info as usize].utoff as i64;
-        let y0 = refmodel::cal::days_from_civil(p.rule_year, 1, 1) * 86400;
-        let y1 = refmodel::cal::days_from_civil(p.rule_year + 1, 1, 1) * 86400;
-        let pts = [p.start, p.start + o1, p.start + o2];
-        let mn = *pts.iter().min().unwrap();
-        let mx = *pts.iter().max().unwrap();
-        let (a, b) = if mn < y0 {
-            (mn, mx.max(y0))
-        } else if mx >= y1 - 1 {
-            (mn.min(y1 - 1), mx)
-        } else {
-            continue;
-        };
-        if civil_sec >= a - 94_000 && civil_sec <= b + 94_000 {
-            return true;
-        }
+fn year_filter(years: Years) -> Box<dyn Fn(i64) -> bool> {
+    let common = |y: i64| (1900..1903).contains(&y) || (-2..=2).contains(&y);
+    match years {
+        Years::All => Box::new(|_| true),
+        // 1995..2045 contains a century leap year and the years around 2038
+        Years::Short => Box::new(move |y| (1995..2045).contains(&y) || y <= -9997 || y >= 9997 || common(y)),
+        Years::Sparse => Box::new(|y| y <= 2100 || y >= 9997 || y % 97 == 0),
+        Years::Cycle => Box::new(move |y| (1968..2370).contains(&y) || y <= -9996 || y >= 9996 || common(y)),
     }
-    false
 }
 
-fn check_zone(r: &Report, sec: &str, p: &Pair, all_years: bool, tot: &Tot) {
-    let quick = r.quick();
-    let filter: Box<dyn Fn(i64) -> bool> = if all_years {
-        Box::new(|_| true)
-    } else if quick {
-        // POSIX strings, quick: 1995..2035 (contains a century leap year) plus range edges
-        Box::new(|y| (1995..2035).contains(&y) || y <= -9997 || y >= 9997 || (1900..1902).contains(&y))
-    } else {
-        // one complete 400-year Gregorian cycle plus range edges
-        Box::new(|y| (1970..2370).contains(&y) || y <= -9996 || y >= 9996 || (1900..1903).contains(&y))
-    };
+fn zv(z: Result<jiff::Zoned, jiff::Error>) -> Zv {
+    z.ok().map(|z| (z.timestamp().as_nanosecond(), z.offset().seconds(), z.datetime()))
+}
+
+struct Got {
+    cls: Class,
+    /// is_ambiguous(), datetime() and offset() of both ambiguous values agree with `cls` and the input
+    accessors_ok: bool,
+    res: [Option<i128>; 4],
+    /// AmbiguousTimestamp::disambiguate(d) == the named method, for the four d
+    dis_ts_ok: bool,
+    zres: [Zv; 4],
+    /// AmbiguousZoned::disambiguate(d) == the named method, for the four d
+    dis_z_ok: bool,
+    via_tz: Option<i128>,
+    via_zoned: Zv,
+    via_dt: Zv,
+    via_date: Option<Zv>,
+}
+
+fn check_zone(r: &Report, sec: &str, p: &Pair, years: Years, tot: &Tot) {
+    let filter = year_filter(years);
+    // The thorough POSIX product (141 345 strings x 400 years) runs the three
+    // extra AmbiguousZoned strategies and the `disambiguate` dispatchers at
+    // three probes of every window only (lo-1ns just before
+    // it, mid and hi-1ns inside it) and before every year boundary;
+    // everything else runs them at every probe.
+    let lean = r.thorough() && sec == "posix";
     let ks = zones::probe_pieces(&p.model, &*filter);
     let dt_min = conv::dt_min_ns();
     let dt_max = conv::dt_max_ns();
     let ts_min = Timestamp::MIN.as_nanosecond();
     let ts_max = Timestamp::MAX.as_nanosecond();
+    let tzif = p.origin != "posix";
     let (mut n, mut ngap, mut nfold, mut nun, mut nex) = (0u64, 0u64, 0u64, 0u64, 0u64);
+    let (mut n_overlap, mut n_midnight, mut n_midnight_amb, mut n_oor, mut n_later, mut n_validated) = (0u64, 0u64, 0u64, 0u64, 0u64, 0u64);
+    let strategies = [Disambiguation::Compatible, Disambiguation::Earlier, Disambiguation::Later, Disambiguation::Reject];
+    let names = ["compatible", "earlier", "later", "unambiguous"];
+    let znames = ["AmbiguousZoned::compatible", "AmbiguousZoned::earlier", "AmbiguousZoned::later", "AmbiguousZoned::unambiguous"];
+    // zones with a piece shorter than the clock shift at one of its ends
+    let zone_overlap = (2..p.model.pieces.len()).any(|k| {
+        let o = |i: usize| p.model.infos[p.model.pieces[i].info as usize].utoff as i64;
+        let (a, b) = (&p.model.pieces[k - 1], &p.model.pieces[k]);
+        a.start != i64::MIN && b.start - a.start < (o(k - 2) - o(k - 1)).abs().max((o(k - 1) - o(k)).abs())
+    });
+    let wall_reversed = !p.model.pieces.last().map(|x| x.recorded).unwrap_or(true) && hb::posix_rule_wall_order_reversed(&p.model);
+    let (mut n_f7_skipped, mut n_dis_z, mut n_all, mut n_unhidden) = (0u64, 0u64, 0u64, 0u64);
+    let f7_zone = hb::zone_has_f7_pieces(&p.model);
+    // violations of the hot (F7) paths are aggregated per zone and signature
+    let mut agg = hb::Agg::new(r);
+    // a recorded transition outside jiff's timestamp range (jiff clamps it onto Timestamp::MIN/MAX)
+    let oor: Vec<(i64, i64, i64)> = (1..p.model.pieces.len())
+        .filter(|&k| {
+            let s = p.model.pieces[k].start;
+            p.model.pieces[k].recorded && s != i64::MIN && (s < zones::TS_MIN_SEC || s > zones::TS_MAX_SEC)
+        })
+        .map(|k| {
+            let o = |i: usize| p.model.infos[p.model.pieces[i].info as usize].utoff as i64;
+            let b = p.model.pieces[k].start.clamp(zones::TS_MIN_SEC, zones::TS_MAX_SEC);
+            (b, o(k - 1).min(o(k)), o(k - 1).max(o(k)))
+        })
+        .collect();
 
     let mut probe = |c_ns: i128| {
         if c_ns < dt_min || c_ns > dt_max {
@@ -181,6 +286,13 @@ fn check_zone(r: &Report, sec: &str, p: &Pair, all_years: bool, tot: &Tot) {
         }
         n += 1;
         let c_sec = c_ns.div_euclid(NS) as i64;
+        if f7_zone && !lean && hb::former_f7_wall(&p.model, c_sec) && !hb::f7_wall(&p.model, c_sec, tzif) {
+            n_unhidden += 1;
+        }
+        let overlapping = zone_overlap && hb::window_longer_than_adjacent_piece(&p.model, c_sec);
+        if overlapping {
+            n_overlap += 1;
+        }
         let Some(want) = classify_model(&p.model, c_sec) else {
             nex += 1;
             return;
@@ -191,79 +303,196 @@ fn check_zone(r: &Report, sec: &str, p: &Pair, all_years: bool, tot: &Tot) {
             Class::Unambiguous(..) => nun += 1,
         }
         let dt = conv::dt_from_civil_ns(c_ns).unwrap();
+        let midnight = c_ns.rem_euclid(86_400 * NS) == 0;
+        if midnight {
+            n_midnight += 1;
+            if !matches!(want, Class::Unambiguous(..)) {
+                n_midnight_amb += 1;
+            }
+        }
         let case = || format!("{}:{} civil={}", p.origin, p.name, dt);
-        let f7 = || if near_crossing(&p.model, c_sec) { ":posix-rule-transition-outside-its-utc-year" } else { "" };
+        // input-derived class of a classification failure
+        let class_suffix = || {
+            if hb::f7_wall(&p.model, c_sec, tzif) {
+                format!(":{}", hb::F7)
+            } else if oor.iter().any(|&(b, omin, omax)| c_sec >= b + omin - 1 && c_sec <= b + omax + 1) {
+                ":recorded-transition-outside-timestamp-range-clamped-onto-MIN-or-MAX".to_string()
+            } else if overlapping {
+                ":transition-window-longer-than-adjacent-piece".to_string()
+            } else if wall_reversed && !p.model.pieces[p.model.piece_index_at(c_sec)].recorded {
+                ":posix-rule-wall-clock-order-differs-from-instant-order".to_string()
+            } else {
+                String::new()
+            }
+        };
+        // AmbiguousZoned::disambiguate is a dispatch on its argument: exercised
+        // at the mid-window probe of every transition (always a gap or fold)
+        // and at the civil datetimes probed to the second off a window
+        let all_strategies = !lean || matches!(c_ns.rem_euclid(NS), 500_000_000 | 999_999_999);
+        if all_strategies {
+            n_all += 1;
+        }
+        let dis_z_here = all_strategies && (c_ns.rem_euclid(NS) == 500_000_000 || c_ns.rem_euclid(3600 * NS) == 0);
+        if dis_z_here {
+            n_dis_z += 1;
+        }
         let got = guard(|| {
             let at = p.jiff.to_ambiguous_timestamp(dt);
             let cls = jiff_class(at.offset());
+            let amb = !matches!(cls, Class::Unambiguous(..));
             let res = [
-                at.clone().compatible().ok().map(|t| t.as_nanosecond()),
-                at.clone().earlier().ok().map(|t| t.as_nanosecond()),
-                at.clone().later().ok().map(|t| t.as_nanosecond()),
-                at.clone().unambiguous().ok().map(|t| t.as_nanosecond()),
+                at.compatible().ok().map(|t| t.as_nanosecond()),
+                at.earlier().ok().map(|t| t.as_nanosecond()),
+                at.later().ok().map(|t| t.as_nanosecond()),
+                at.unambiguous().ok().map(|t| t.as_nanosecond()),
             ];
+            let mut dis_ts_ok = true;
+            if all_strategies {
+                for i in 0..4 {
+                    dis_ts_ok &= at.disambiguate(strategies[i]).ok().map(|t| t.as_nanosecond()) == res[i];
+                }
+            }
+            let az = p.jiff.to_ambiguous_zoned(dt);
+            let accessors_ok = at.is_ambiguous() == amb
+                && at.datetime() == dt
+                && az.is_ambiguous() == amb
+                && az.datetime() == dt
+                && jiff_class(az.offset()) == cls;
+            let zres = if all_strategies {
+                [zv(az.clone().compatible()), zv(az.clone().earlier()), zv(az.clone().later()), zv(az.clone().unambiguous())]
+            } else {
+                [zv(az.clone().compatible()), None, None, None]
+            };
+            let mut dis_z_ok = true;
+            if dis_z_here {
+                for i in 0..4 {
+                    dis_z_ok &= zv(az.clone().disambiguate(strategies[i])) == zres[i];
+                }
+            }
             let via_tz = p.jiff.to_timestamp(dt).ok().map(|t| t.as_nanosecond());
-            let via_zoned = p.jiff.to_zoned(dt).ok().map(|z| (z.timestamp().as_nanosecond(), z.offset().seconds(), z.datetime()));
-            let via_dt = dt.to_zoned(p.jiff.clone()).ok().map(|z| z.timestamp().as_nanosecond());
-            let via_az = p.jiff.to_ambiguous_zoned(dt).compatible().ok().map(|z| z.timestamp().as_nanosecond());
-            (cls, res, via_tz, via_zoned, via_dt, via_az)
+            let via_zoned = zv(p.jiff.to_zoned(dt));
+            let via_dt = zv(dt.to_zoned(p.jiff.clone()));
+            let via_date = if midnight { Some(zv(dt.date().to_zoned(p.jiff.clone()))) } else { None };
+            Got { cls, accessors_ok, res, dis_ts_ok, zres, dis_z_ok, via_tz, via_zoned, via_dt, via_date }
         });
-        let (cls, res, via_tz, via_zoned, via_dt, via_az) = match got {
+        let g = match got {
             Err(pn) => {
-                r.viol(sec, &format!("to_ambiguous_timestamp/{}{}", panic_sig(&pn), f7()), case(), pn);
+                r.viol(sec, &format!("to_ambiguous_timestamp/{}{}", panic_sig(&pn), class_suffix()), case(), pn);
                 return;
             }
             Ok(x) => x,
         };
-        if cls != want {
-            r.viol(sec, &format!("to_ambiguous_timestamp/classification{}", f7()), case(), format!("jiff {:?} model {:?}", cls, want));
-            return;
-        }
-        // documented strategy selections
-        let inst = |off: i32| -> Option<i128> {
-            let t = c_ns - off as i128 * NS;
+        n_validated += 21;
+        // documented strategy selections: the offset each strategy uses
+        let offs: [Option<i32>; 4] = match want {
+            Class::Unambiguous(o) => [Some(o); 4],
+            // gap: compatible = later instant (offset before the gap), earlier = offset after the gap
+            Class::Gap(b, a) => [Some(b), Some(a), Some(b), None],
+            // fold: compatible = earlier instant (offset before), later = offset after
+            Class::Fold(b, a) => [Some(b), Some(b), Some(a), None],
+        };
+        let inst = |off: Option<i32>| -> Option<i128> {
+            let t = c_ns - off? as i128 * NS;
             if t < ts_min || t > ts_max {
                 None
             } else {
                 Some(t)
             }
         };
-        let exp: [Option<i128>; 4] = match want {
-            Class::Unambiguous(o) => [inst(o), inst(o), inst(o), inst(o)],
-            // gap: compatible = later instant (offset before the gap), earlier = offset after the gap
-            Class::Gap(b, a) => [inst(b), inst(a), inst(b), None],
-            // fold: compatible = earlier instant (offset before), later = offset after
-            Class::Fold(b, a) => [inst(b), inst(b), inst(a), None],
-        };
-        let names = ["compatible", "earlier", "later", "unambiguous"];
+        let exp: [Option<i128>; 4] = [inst(offs[0]), inst(offs[1]), inst(offs[2]), inst(offs[3])];
+        // A civil datetime none of whose instants lies in the timestamp range
+        // (within a day of DateTime::MIN/MAX): every strategy must report an
+        // error, and the kind of the classification is compared; the offsets
+        // it names are not (no instant exists through which they could matter).
+        let no_instant = exp.iter().all(|e| e.is_none());
+        if no_instant {
+            n_oor += 1;
+        }
+        let same_kind = matches!(
+            (g.cls, want),
+            (Class::Unambiguous(..), Class::Unambiguous(..)) | (Class::Gap(..), Class::Gap(..)) | (Class::Fold(..), Class::Fold(..))
+        );
+        if g.cls != want && !(no_instant && same_kind && g.res.iter().all(|x| x.is_none())) {
+            agg.add(r, sec, &format!("to_ambiguous_timestamp/classification{}", class_suffix()), case(), || format!("jiff {:?} model {:?}", g.cls, want));
+            return;
+        }
+        if !g.accessors_ok {
+            r.viol(sec, "Ambiguous{Timestamp,Zoned}::{is_ambiguous,datetime,offset}/inconsistent", case(), format!("classification {:?}", g.cls));
+        }
         for i in 0..4 {
-            if res[i] != exp[i] {
-                r.viol(sec, &format!("AmbiguousTimestamp::{}/instant", names[i]), case(), format!("jiff {:?} model {:?} ({:?})", res[i], exp[i], want));
+            if g.res[i] != exp[i] {
+                r.viol(sec, &format!("AmbiguousTimestamp::{}/instant", names[i]), case(), format!("jiff {:?} model {:?} ({:?})", g.res[i], exp[i], want));
             }
         }
-        if via_tz != exp[0] {
-            r.viol(sec, "TimeZone::to_timestamp/instant", case(), format!("jiff {:?} model {:?}", via_tz, exp[0]));
+        if !g.dis_ts_ok {
+            r.viol(sec, "AmbiguousTimestamp::disambiguate/differs-from-named-strategy", case(), format!("{:?}", want));
         }
-        if via_dt != exp[0] {
-            r.viol(sec, "DateTime::to_zoned/instant", case(), format!("jiff {:?} model {:?}", via_dt, exp[0]));
+        if !g.dis_z_ok {
+            r.viol(sec, "AmbiguousZoned::disambiguate/differs-from-named-strategy", case(), format!("{:?}", want));
         }
-        if via_az != exp[0] {
-            r.viol(sec, "AmbiguousZoned::compatible/instant", case(), format!("jiff {:?} model {:?}", via_az, exp[0]));
+        if g.via_tz != exp[0] {
+            r.viol(sec, "TimeZone::to_timestamp/instant", case(), format!("jiff {:?} model {:?}", g.via_tz, exp[0]));
         }
-        match (via_zoned, exp[0]) {
-            (None, None) => {}
-            (Some((t, off, zdt)), Some(e)) => {
-                if t != e {
-                    r.viol(sec, "TimeZone::to_zoned/instant", case(), format!("jiff {} model {}", t, e));
-                } else if !matches!(want, Class::Gap(..)) {
-                    // an instant produced from a non-gap civil time displays that civil time
+        // every Zoned produced: the instant; for a non-gap civil time the
+        // civil time and chosen offset displayed; in a gap, offset and civil
+        // time consistent with the instant
+        let mut check_zoned = |op: &'static str, got: Zv, i: usize| {
+            match (got, exp[i]) {
+                (None, None) => {}
+                (Some((t, off, zdt)), Some(e)) => {
+                    if t != e {
+                        r.viol(sec, &format!("{}/instant", op), case(), format!("jiff {} model {}", t, e));
+                        return;
+                    }
                     let m = p.model.utoff_at(e.div_euclid(NS) as i64);
-                    if zdt != dt || off != m || e + m as i128 * NS != c_ns {
-                        r.viol(sec, &format!("TimeZone::to_zoned/displays-other-civil-time{}", f7()), case(), format!("zoned shows {} offset {} (model offset {})", zdt, off, m));
+                    let gap = matches!(want, Class::Gap(..));
+                    if (zdt != dt || Some(off) != offs[i] || off != m) && hb::f7_utc(&p.model, e, tzif) {
+                        // What jiff displays for an instant inside an exact F7
+                        // window is C03's finding (Zoned::offset there). Here it
+                        // is reported for TimeZone::to_zoned only (the recorded
+                        // known finding); the other routes are counted.
+                        if op == "TimeZone::to_zoned" && !gap {
+                            agg.add(r, sec, &format!("{}/displays-other-civil-time:{}", op, hb::F7), case(), || {
+                                format!("zoned shows {} offset {} (chosen offset {:?}, model offset at the instant {})", zdt, off, offs[i], m)
+                            });
+                        } else {
+                            n_f7_skipped += 1;
+                        }
+                        return;
+                    }
+                    let f7 = || "";
+                    if !gap {
+                        // an instant produced from a non-gap civil time displays that civil time
+                        if matches!(want, Class::Fold(..)) && i == 2 {
+                            n_later += 1;
+                        }
+                        if zdt != dt || Some(off) != offs[i] || off != m {
+                            r.viol(
+                                sec,
+                                &format!("{}/displays-other-civil-time{}", op, f7()),
+                                case(),
+                                format!("zoned shows {} offset {} (chosen offset {:?}, model offset at the instant {})", zdt, off, offs[i], m),
+                            );
+                        }
+                    } else if off != m || conv::dt_civil_ns(zdt) != e + m as i128 * NS {
+                        r.viol(
+                            sec,
+                            &format!("{}/gap-result-inconsistent-with-its-instant{}", op, f7()),
+                            case(),
+                            format!("zoned shows {} offset {} (model offset at the instant {})", zdt, off, m),
+                        );
                     }
                 }
+                (a, b) => r.viol(sec, &format!("{}/range", op), case(), format!("jiff {:?} model {:?}", a.map(|x| x.0), b)),
             }
-            (a, b) => r.viol(sec, "TimeZone::to_zoned/range", case(), format!("jiff {:?} model {:?}", a.map(|x| x.0), b)),
+        };
+        for i in 0..(if all_strategies { 4 } else { 1 }) {
+            check_zoned(znames[i], g.zres[i], i);
+        }
+        check_zoned("TimeZone::to_zoned", g.via_zoned, 0);
+        check_zoned("DateTime::to_zoned", g.via_dt, 0);
+        if let Some(vd) = g.via_date {
+            check_zoned("Date::to_zoned", vd, 0);
         }
     };
 
@@ -275,9 +504,27 @@ fn check_zone(r: &Report, sec: &str, p: &Pair, all_years: bool, tot: &Tot) {
     probe(dt_max - 1);
     probe(dt_max - 26 * 3600 * NS);
     probe(0);
+    // the civil datetimes of Timestamp::MIN / MAX under the first / last
+    // offset: the boundary between a result and a range error
+    let o_first = p.model.infos[p.model.pieces[0].info as usize].utoff as i128;
+    let o_last = p.model.utoff_at(zones::TS_MAX_SEC) as i128;
+    for d in [-NS, -1, 0, 1, NS] {
+        probe(ts_min + o_first * NS + d);
+        probe(ts_max + o_last * NS + d);
+    }
     let mut sampled = false;
+    let mut years_set: BTreeSet<i64> = BTreeSet::new();
+    let mut n_neg = 0u64;
     for &k in &ks {
-        let t = p.model.pieces[k].start as i128;
+        let pc = &p.model.pieces[k];
+        if !pc.recorded {
+            years_set.insert(pc.rule_year);
+            years_set.insert(pc.rule_year + 1);
+            if pc.rule_year < 0 {
+                n_neg += 1;
+            }
+        }
+        let t = pc.start as i128;
         let o1 = p.model.infos[p.model.pieces[k - 1].info as usize].utoff as i128;
         let o2 = p.model.infos[p.model.pieces[k].info as usize].utoff as i128;
         let (lo, hi) = ((t + o1.min(o2)) * NS, (t + o1.max(o2)) * NS);
@@ -297,6 +544,21 @@ fn check_zone(r: &Report, sec: &str, p: &Pair, all_years: bool, tot: &Tot) {
                 "window_civil_ns": [lo.to_string(), hi.to_string()], "probes": "lo-1s,lo-1ns,lo,lo+1ns,lo+1s,mid,hi-1s,hi-1ns,hi,hi+1ns,hi+1s"}));
         }
     }
+    // both sides of every wall-clock year boundary in the rule-governed part
+    let mut n_yb = 0u64;
+    for y in years_set {
+        if !(-9999..=10000).contains(&y) {
+            continue;
+        }
+        let y0 = refmodel::cal::days_from_civil(y, 1, 1) as i128 * 86400 * NS;
+        for d in [-NS, -1, 0] {
+            if y0 + d >= dt_min && y0 + d <= dt_max {
+                n_yb += 1;
+            }
+            probe(y0 + d);
+        }
+    }
+    agg.flush(r, sec);
     tot.probes.fetch_add(n, Ordering::Relaxed);
     tot.gaps.fetch_add(ngap, Ordering::Relaxed);
     tot.folds.fetch_add(nfold, Ordering::Relaxed);
@@ -310,7 +572,260 @@ fn check_zone(r: &Report, sec: &str, p: &Pair, all_years: bool, tot: &Tot) {
         tot.zones_without_both.fetch_add(1, Ordering::Relaxed);
     }
     r.add_transitions(n);
-    r.add_validated(n * 9);
-    let _: Option<TimeZone> = None;
-    let _: Option<DateTime> = None;
+    r.add_validated(n_validated);
+    r.count("probes_overlapping_windows", n_overlap);
+    r.count("probes_midnight(Date::to_zoned)", n_midnight);
+    r.count("midnight_gap_or_fold(Date::to_zoned)", n_midnight_amb);
+    r.count("probes_wall_year_boundary", n_yb);
+    r.count("probes_negative_rule_years", n_neg);
+    r.count("results_out_of_timestamp_range", n_oor);
+    r.count("fold_later_instants_displayed", n_later);
+    r.count("display_checks_not_reported_here(instant inside an exact F7 UTC window; see C03)", n_f7_skipped);
+    r.count("probes_with_AmbiguousZoned::disambiguate", n_dis_z);
+    r.count("probes_in_the_former_F7_window_now_outside_the_exact_one", n_unhidden);
+    r.count("probes_with_all_four_AmbiguousZoned_strategies", n_all);
+    if years == Years::All && !tzif {
+        r.count("probes_every_year_sweep", n);
+    }
+}
+
+/// Fixed-offset zones and UTC: every civil datetime is unambiguous with the
+/// zone's offset.
+fn fixed_offsets(r: &Report) {
+    let offs: [i32; 9] = [-93_599, -3600, -1, 0, 1, 19_800, 45_900, 86_400, 93_599];
+    let (dt_min, dt_max) = (conv::dt_min_ns(), conv::dt_max_ns());
+    let (ts_min, ts_max) = (Timestamp::MIN.as_nanosecond(), Timestamp::MAX.as_nanosecond());
+    let mut zonesv: Vec<(String, i32, TimeZone)> = vec![("UTC".into(), 0, TimeZone::UTC)];
+    for o in offs {
+        zonesv.push((format!("fixed({})", o), o, TimeZone::fixed(jiff::tz::Offset::from_seconds(o).unwrap())));
+    }
+    let mut n = 0;
+    for (name, o, tz) in &zonesv {
+        let on = *o as i128 * NS;
+        let cs = [dt_min, dt_min + 1, ts_min + on - 1, ts_min + on, -1, 0, 1, 86_400 * NS - 1, ts_max + on, ts_max + on + 1, dt_max - 1, dt_max];
+        for c in cs {
+            if c < dt_min || c > dt_max {
+                continue;
+            }
+            n += 1;
+            let dt = conv::dt_from_civil_ns(c).unwrap();
+            let case = format!("{} civil={}", name, dt);
+            let e = c - on;
+            let exp = if e < ts_min || e > ts_max { None } else { Some((e, *o, dt)) };
+            match guard(|| {
+                let at = tz.to_ambiguous_timestamp(dt);
+                (jiff_class(at.offset()), at.is_ambiguous(), at.unambiguous().ok().map(|t| t.as_nanosecond()), zv(tz.to_zoned(dt)), zv(dt.to_zoned(tz.clone())), zv(tz.to_ambiguous_zoned(dt).later()))
+            }) {
+                Err(pn) => r.viol("fixed", &format!("TimeZone::fixed/to_ambiguous_timestamp/{}", panic_sig(&pn)), case, pn),
+                Ok((cls, amb, una, z1, z2, z3)) => {
+                    if cls != Class::Unambiguous(*o) || amb || una != exp.map(|x| x.0) || z1 != exp || z2 != exp || z3 != exp {
+                        r.viol("fixed", "TimeZone::fixed/to_ambiguous_timestamp/value", case, format!("jiff ({:?}, {}, {:?}, {:?}, {:?}, {:?}) expected {:?}", cls, amb, una, z1, z2, z3, exp));
+                    }
+                }
+            }
+        }
+    }
+    r.count("fixed_offset_probes", n);
+    r.add_transitions(n);
+    r.add_validated(n);
+}
+
+/// `DateTime::in_tz(name)` / `Date::in_tz(name)`: the database route, on a
+/// representative set of probes per installed zone. The zone the database
+/// hands out must resolve like the installed file of that name or like the
+/// bundled copy (their equivalence is C18).
+fn db_route(r: &Report) {
+    let sys = zones::sys(true);
+    let zs: Vec<&ZoneSrc> = sys.iter().filter(|z| !z.name.starts_with("right/") && !z.name.starts_with("posix/")).collect();
+    let n_zones = AtomicU64::new(0);
+    let n_unres = AtomicU64::new(0);
+    let n_probes = AtomicU64::new(0);
+    let n_dates = AtomicU64::new(0);
+    let (ts_min, ts_max) = (Timestamp::MIN.as_nanosecond(), Timestamp::MAX.as_nanosecond());
+    zs.par_iter().for_each(|z| {
+        let Ok(m_sys) = rtz::zone_from_tzif(&z.bytes) else { return };
+        let m_bun = jiff_tzdb::get(&z.name).and_then(|(_, b)| rtz::zone_from_tzif(b).ok());
+        if guard(|| jiff::tz::db().get(&z.name).is_ok()) != Ok(true) {
+            n_unres.fetch_add(1, Ordering::Relaxed);
+            return;
+        }
+        n_zones.fetch_add(1, Ordering::Relaxed);
+        let all = zones::probe_pieces(&m_sys, &|_| true);
+        let rec: Vec<usize> = all.iter().copied().filter(|&k| m_sys.pieces[k].recorded).collect();
+        let rule: Vec<usize> = all.iter().copied().filter(|&k| !m_sys.pieces[k].recorded).collect();
+        let mut ks: Vec<usize> = vec![];
+        ks.extend(rec.iter().take(1));
+        ks.extend(rec.iter().rev().take(2));
+        ks.extend(rule.iter().take(2));
+        ks.extend(rule.iter().rev().take(1));
+        let mut cs: Vec<i128> = vec![conv::dt_min_ns(), conv::dt_max_ns(), 0];
+        for k in ks {
+            let t = m_sys.pieces[k].start as i128;
+            let o1 = m_sys.infos[m_sys.pieces[k - 1].info as usize].utoff as i128;
+            let o2 = m_sys.infos[m_sys.pieces[k].info as usize].utoff as i128;
+            let (lo, hi) = ((t + o1.min(o2)) * NS, (t + o1.max(o2)) * NS);
+            cs.extend([lo - 1, lo, lo + (hi - lo) / 2, hi - 1, hi]);
+            // the midnight starting the day of the transition (Date::in_tz)
+            cs.push(lo.div_euclid(86_400 * NS) * 86_400 * NS);
+        }
+        for c in cs {
+            if c < conv::dt_min_ns() || c > conv::dt_max_ns() {
+                continue;
+            }
+            n_probes.fetch_add(1, Ordering::Relaxed);
+            let dt = conv::dt_from_civil_ns(c).unwrap();
+            let midnight = c.rem_euclid(86_400 * NS) == 0;
+            let case = format!("sys:{} civil={}", z.name, dt);
+            let expect = |m: &rtz::Zone| -> Option<Option<i128>> {
+                let off = match classify_model(m, c.div_euclid(NS) as i64)? {
+                    Class::Unambiguous(o) => o,
+                    Class::Gap(b, _) => b,
+                    Class::Fold(b, _) => b,
+                };
+                let e = c - off as i128 * NS;
+                Some(if e < ts_min || e > ts_max { None } else { Some(e) })
+            };
+            let w1 = expect(&m_sys);
+            let w2 = m_bun.as_ref().and_then(|m| expect(m));
+            if w1.is_none() {
+                continue;
+            }
+            match guard(|| {
+                let a = dt.in_tz(&z.name).ok().map(|zd| (zd.timestamp().as_nanosecond(), zd.offset().seconds(), zd.datetime()));
+                let b = if midnight { Some(dt.date().in_tz(&z.name).ok().map(|zd| (zd.timestamp().as_nanosecond(), zd.offset().seconds(), zd.datetime()))) } else { None };
+                (a, b)
+            }) {
+                Err(pn) => r.viol("db-route", &format!("DateTime::in_tz/{}", panic_sig(&pn)), case, pn),
+                Ok((a, b)) => {
+                    let f7 = || if hb::f7_wall(&m_sys, c.div_euclid(NS) as i64, true) { format!(":{}", hb::F7) } else { String::new() };
+                    let ok = |g: &Zv| {
+                        let gi = g.map(|x| x.0);
+                        (Some(gi) == w1 || (w2.is_some() && Some(gi) == w2)) && g.map(|(t, off, zdt)| conv::dt_civil_ns(zdt) == t + off as i128 * NS).unwrap_or(true)
+                    };
+                    if !ok(&a) {
+                        r.viol("db-route", &format!("DateTime::in_tz/instant{}", f7()), case.clone(), format!("jiff {:?} model installed {:?} bundled {:?}", a, w1, w2));
+                    }
+                    if let Some(b) = b {
+                        n_dates.fetch_add(1, Ordering::Relaxed);
+                        if b != a {
+                            r.viol("db-route", "Date::in_tz/differs-from-DateTime::in_tz-at-midnight", case, format!("{:?} vs {:?}", b, a));
+                        }
+                    }
+                }
+            }
+        }
+    });
+    r.count("db_route_zones", n_zones.load(Ordering::Relaxed));
+    r.count("db_route_names_not_resolved", n_unres.load(Ordering::Relaxed));
+    r.count("db_route_probes", n_probes.load(Ordering::Relaxed));
+    r.count("db_route_date_in_tz", n_dates.load(Ordering::Relaxed));
+    r.add_transitions(n_probes.load(Ordering::Relaxed));
+    r.add_validated(n_probes.load(Ordering::Relaxed));
+}
+
+/// Bind the civil side of R-tz (`preimages`, `gap_around`) to a third
+/// implementation: the transition list printed by `zdump -V` (glibc's reader)
+/// is turned into a piece list of its own, the classification of the window
+/// boundaries of every listed transition is computed from it by brute force
+/// (count the pieces whose local clock shows the civil time), and compared
+/// with R-tz's classification of the same civil time. jiff is not involved.
+fn zdump_civil_binding(r: &Report) {
+    let zs: Vec<ZoneSrc> = zones::sys(true).into_iter().filter(|z| !z.name.starts_with("right/")).collect();
+    let compared = AtomicU64::new(0);
+    let n_gap = AtomicU64::new(0);
+    let n_fold = AtomicU64::new(0);
+    zs.par_iter().for_each(|z| {
+        let Ok(model) = rtz::zone_from_tzif(&z.bytes) else { return };
+        let path = format!("{}/{}", zones::SYS_DIR, z.name);
+        let Ok(out) = std::process::Command::new("zdump").args(["-V", "-c", "1800,2500", &path]).output() else { return };
+        let text = String::from_utf8_lossy(&out.stdout);
+        // (instant, gmtoff) per line; lines come in pairs (T-1, T)
+        let mut pts: Vec<(i64, i64)> = vec![];
+        for line in text.lines() {
+            let toks: Vec<&str> = line.split_whitespace().collect();
+            if toks.len() < 16 || toks[6] != "UT" {
+                continue;
+            }
+            let mon = ["Jan", "Feb", "Mar", "Apr", "May", "Jun", "Jul", "Aug", "Sep", "Oct", "Nov", "Dec"].iter().position(|m| *m == toks[2]);
+            let (Some(mon), Ok(day), Ok(year)) = (mon, toks[3].parse::<i64>(), toks[5].parse::<i64>()) else { continue };
+            let hms: Vec<i64> = toks[4].split(':').filter_map(|x| x.parse().ok()).collect();
+            if hms.len() != 3 {
+                continue;
+            }
+            let t = refmodel::cal::days_from_civil(year, mon as i64 + 1, day) * 86400 + hms[0] * 3600 + hms[1] * 60 + hms[2];
+            let Ok(gmtoff) = toks[15].trim_start_matches("gmtoff=").parse::<i64>() else { continue };
+            pts.push((t, gmtoff));
+        }
+        // zdump's own piece list: (start, offset); the first piece starts at -inf
+        let mut zp: Vec<(i64, i64)> = vec![];
+        let mut i = 0;
+        while i + 1 < pts.len() {
+            if pts[i + 1].0 == pts[i].0 + 1 {
+                if zp.is_empty() {
+                    zp.push((i64::MIN, pts[i].1));
+                }
+                zp.push((pts[i + 1].0, pts[i + 1].1));
+                i += 2;
+            } else {
+                i += 1;
+            }
+        }
+        if zp.len() < 3 {
+            return;
+        }
+        let brute = |c: i64| -> Option<Class> {
+            let mut pre: Vec<(i64, i64)> = vec![];
+            for (k, &(s, o)) in zp.iter().enumerate() {
+                let e = if k + 1 < zp.len() { zp[k + 1].0 } else { i64::MAX };
+                let t = c - o;
+                if t >= s && t < e {
+                    pre.push((t, o));
+                }
+            }
+            pre.sort();
+            match pre.len() {
+                1 => Some(Class::Unambiguous(pre[0].1 as i32)),
+                2 => Some(Class::Fold(pre[0].1 as i32, pre[1].1 as i32)),
+                0 => {
+                    // the transition that skips c
+                    let ks: Vec<usize> = (1..zp.len()).filter(|&k| c - zp[k - 1].1 >= zp[k].0 && c - zp[k].1 < zp[k].0).collect();
+                    if ks.len() == 1 {
+                        Some(Class::Gap(zp[ks[0] - 1].1 as i32, zp[ks[0]].1 as i32))
+                    } else {
+                        None
+                    }
+                }
+                _ => None,
+            }
+        };
+        // stay two days inside what zdump listed
+        let (first, last) = (zp[1].0, zp[zp.len() - 1].0);
+        for k in 1..zp.len() {
+            let (t, o1, o2) = (zp[k].0, zp[k - 1].1, zp[k].1);
+            let (lo, hi) = (t + o1.min(o2), t + o1.max(o2));
+            for c in [lo - 1, lo, lo + (hi - lo) / 2, hi - 1, hi] {
+                if c < first + 200_000 || c > last - 200_000 {
+                    continue;
+                }
+                let (a, b) = (brute(c), classify_model(&model, c));
+                compared.fetch_add(1, Ordering::Relaxed);
+                match a {
+                    Some(Class::Gap(..)) => {
+                        n_gap.fetch_add(1, Ordering::Relaxed);
+                    }
+                    Some(Class::Fold(..)) => {
+                        n_fold.fetch_add(1, Ordering::Relaxed);
+                    }
+                    _ => {}
+                }
+                if a != b {
+                    r.viol("zdump-civil", "model-vs-zdump/civil-classification", format!("{} civil_sec={}", z.name, c), format!("zdump-derived {:?} R-tz {:?}", a, b));
+                }
+            }
+        }
+    });
+    r.count("zdump_civil_classifications_compared", compared.load(Ordering::Relaxed));
+    r.count("zdump_civil_gaps", n_gap.load(Ordering::Relaxed));
+    r.count("zdump_civil_folds", n_fold.load(Ordering::Relaxed));
+    r.require(compared.load(Ordering::Relaxed) > 100_000 && n_gap.load(Ordering::Relaxed) > 1000 && n_fold.load(Ordering::Relaxed) > 1000, "zdump-derived civil classifications compared");
 }
